@@ -125,7 +125,7 @@ ExpectTcp(b, l3) ==
     ELSE IF fl = F_FIN + F_ACK THEN
         Out("TcpFinAck", ly, IF t.ps = t.pe THEN "must" ELSE "any", "finack")
     ELSE IF SynPolicy(fl) THEN Out("TcpSynAck", ly, "must", "synack")
-    ELSE IF HasFlag(fl, F_SYN) THEN Out("TcpSynRefused", ly, "mustnot", "none")
+    ELSE IF HasFlag(fl, F_SYN) THEN Out("TcpSynRefused", ly, "any", "refused")      \* C06: not with a SYN|ACK (a RST would do)
     ELSE Out("TcpOtherFlags", ly, "any", "other")
 
 ExpectIp4(b) ==
@@ -187,15 +187,8 @@ OwnGroupMacs(b) ==
          { McastMac6(Ip6Dst(b)) } \cup (IF Ip6Nh(b) = PROTO_ICMP6 /\ Len(b) >= 54 + 24 THEN { McastMac6(NsTarget(b, 54)) } ELSE {})
     ELSE {}
 
-ExpectL2(b) ==
-    IF ~EthOK(b) THEN Out("EthShort", << >>, "mustnot", "none")
-    ELSE IF EthDst(b) \notin Auth(cfg) THEN
-         (* without a self-IP list every address is handled: a group MAC derived from the address the *)
-         (* frame itself asks for is then "derived from a handled IP address" - answering is allowed   *)
-         IF ~HasSelf(cfg) /\ EthDst(b) \in OwnGroupMacs(b)
-         THEN Out("EthGroupMacNoSelfList", << "eth" >>, "any", "none")
-         ELSE Out("EthForeignMac", << "eth" >>, "mustnot", "none")
-    ELSE IF EthType(b) = ETH_ARP THEN
+ExpectAfterMac(b) ==
+    IF EthType(b) = ETH_ARP THEN
         IF ~ArpOK(b) THEN Out("ArpShort", << "eth" >>, "mustnot", "none")
         ELSE IF ArpOp(b) # 1 THEN Out("ArpNotRequest", << "eth", "arp" >>, "mustnot", "none")
         ELSE IF ~Handled(cfg, ArpTpa(b)) THEN Out("ArpNotHandled", << "eth", "arp" >>, "mustnot", "none")
@@ -203,6 +196,17 @@ ExpectL2(b) ==
     ELSE IF EthType(b) = ETH_IP4 THEN ExpectIp4(b)
     ELSE IF EthType(b) = ETH_IP6 THEN ExpectIp6(b)
     ELSE Out("EthTypeOther", << "eth" >>, "mustnot", "none")
+
+ExpectL2(b) ==
+    IF ~EthOK(b) THEN Out("EthShort", << >>, "mustnot", "none")
+    ELSE IF EthDst(b) \notin Auth(cfg) THEN
+         (* without a self-IP list every address is handled: a group MAC derived from the address the *)
+         (* frame itself asks for is then "derived from a handled IP address" - accepting the frame is *)
+         (* allowed, not required: the usual expectation, but never a "must"                           *)
+         IF ~HasSelf(cfg) /\ EthDst(b) \in OwnGroupMacs(b)
+         THEN LET o == ExpectAfterMac(b) IN [ o EXCEPT !.ans = IF o.ans = "must" THEN "any" ELSE o.ans ]
+         ELSE Out("EthForeignMac", << "eth" >>, "mustnot", "none")
+    ELSE ExpectAfterMac(b)
 
 (***************************************************************************)
 (* Application layer: what the reference dispatcher says about the payload *)
@@ -407,11 +411,11 @@ FieldsPrinted(log) ==
                       [] x = "is" -> log[i].is # << >>  [] x = "id" -> log[i].id # << >>
                       [] x = "ps" -> log[i].ps # -1     [] x = "pd" -> log[i].pd # -1 } }
             : i \in { j \in 1..Len(log) : log[j].bad = 0 } }
-Present(ev) ==     \* judged for the fields that belong to the event's own layer (addresses from layer 3 on, ports at layer 4)
+Present(ev, hasIp, hasPorts) ==     \* judged for the fields that belong to the event's own layer (addresses from layer 3 on, ports at layer 4)
     /\ (ev.ms = << >> => << ev.layer, "ms" >> \notin fmt) /\ (ev.md = << >> => << ev.layer, "md" >> \notin fmt)
-    /\ (ev.layer # "eth" =>
+    /\ (ev.layer \notin { "eth", "app" } /\ hasIp =>
           /\ (ev.is = << >> => << ev.layer, "is" >> \notin fmt) /\ (ev.id = << >> => << ev.layer, "id" >> \notin fmt))
-    /\ (ev.layer \in { "tcp", "udp" } =>
+    /\ (ev.layer \in { "tcp", "udp" } /\ hasPorts =>
           /\ (ev.ps = -1 => << ev.layer, "ps" >> \notin fmt) /\ (ev.pd = -1 => << ev.layer, "pd" >> \notin fmt))
 
 (* A printed pair (source, destination) is the frame's - or, on a send event, the reply's; *)
@@ -426,14 +430,18 @@ LogFieldsOK(b, obs, ev) ==
     LET r == obs.rep
         hasRep == obs.kind = "reply" /\ Len(r) >= 14
     IN
-    IF ev.layer = "arp" THEN
-        IF ~ArpOK(b) THEN FALSE
+    IF ev.layer = "app" THEN TRUE                  \* an event of a layer above the transport: not spoken of
+    ELSE IF ev.layer = "arp" THEN
+        IF ~ArpOK(b) THEN ev.is = << >> /\ ev.id = << >>       \* too short to hold addresses: none can be printed
         ELSE LET ra == hasRep /\ Len(r) >= 42 IN
-             /\ PairOK(ev.ms, ev.md, ev.verb, ArpSha(b), ArpTha(b), ra, IF ra THEN ArpSha(r) ELSE << >>, IF ra THEN ArpTha(r) ELSE << >>)
+             /\ \/ PairOK(ev.ms, ev.md, ev.verb, ArpSha(b), ArpTha(b), ra, IF ra THEN ArpSha(r) ELSE << >>, IF ra THEN ArpTha(r) ELSE << >>)
+                \/ PairOK(ev.ms, ev.md, ev.verb, EthSrc(b), EthDst(b), hasRep, IF hasRep THEN EthSrc(r) ELSE << >>, IF hasRep THEN EthDst(r) ELSE << >>)
              /\ PairOK(ev.is, ev.id, ev.verb, ArpSpa(b), ArpTpa(b), ra, IF ra THEN ArpSpa(r) ELSE << >>, IF ra THEN ArpTpa(r) ELSE << >>)
     ELSE
         /\ PairOK(ev.ms, ev.md, ev.verb, EthSrc(b), EthDst(b), hasRep, IF hasRep THEN EthSrc(r) ELSE << >>, IF hasRep THEN EthDst(r) ELSE << >>)
         /\ IF ev.layer = "eth" THEN TRUE
+           ELSE IF ~((EthType(b) = ETH_IP4 /\ Ip4OK(b)) \/ (EthType(b) = ETH_IP6 /\ Ip6OK(b)))
+           THEN ev.is = << >> /\ ev.id = << >> /\ ev.ps = -1 /\ ev.pd = -1        \* no IP header to take addresses from
            ELSE LET x == L3Ctx(b)
                     ri == hasRep /\ ReplyShape(b, r, 0)
                     rsrc == IF ~ri THEN << >> ELSE IF x.ver = 4 THEN Ip4Src(r) ELSE Ip6Src(r)
@@ -473,7 +481,7 @@ NaturalChain(b) ==
 LogOK(b, obs, o) ==
     LET log == obs.log
         ch  == NaturalChain(b)
-        logged == { log[i].layer : i \in 1..Len(log) }
+        logged == { log[i].layer : i \in 1..Len(log) } \ { "app" }
         ms  == { m \in 0..Len(ch) : logged = { ch[k] : k \in 1..m } }
         need == IF obs.kind = "reply" THEN Len(o.layers) ELSE IF Len(b) >= 14 THEN 1 ELSE 0
         n   == IF ms = {} THEN 0 ELSE CHOOSE m \in ms : TRUE
@@ -488,7 +496,7 @@ LogOK(b, obs, o) ==
            \A k \in 1..n : /\ CountEv(log, 1, ly[k], { "recv" }) = 1
                            /\ CountEv(log, 1, ly[k], Terminal) = 1
                            /\ FirstIdx(log, 1, ly[k], { "recv" }) < FirstIdx(log, 1, ly[k], Terminal))
-    \cup V("C20", "only-recv-send-drop", \A i \in 1..Len(log) : log[i].verb \in { "recv", "send", "drop" })
+    \cup V("C20", "only-recv-send-drop", \A i \in 1..Len(log) : log[i].layer = "app" \/ log[i].verb \in { "recv", "send", "drop" })
     \cup V("C20", "nested-from-ethernet-inwards",
            \A k \in 1..(n - 1) :
               /\ FirstIdx(log, 1, ly[k], { "recv" }) < FirstIdx(log, 1, ly[k + 1], { "recv" })
@@ -499,7 +507,9 @@ LogOK(b, obs, o) ==
                  i = 0 \/ (log[i].verb = "send") = (obs.kind = "reply"))
           ELSE {})
     \cup V("C20", "printed-fields-are-the-frames",
-           \A i \in 1..Len(log) : log[i].bad = 1 \/ (LogFieldsOK(b, obs, log[i]) /\ Present(log[i])))
+           LET hasIp == (EthType(b) = ETH_ARP /\ ArpOK(b)) \/ (EthType(b) = ETH_IP4 /\ Ip4OK(b)) \/ (EthType(b) = ETH_IP6 /\ Ip6OK(b))
+               hasPorts == hasIp /\ EthType(b) # ETH_ARP /\ L3Ctx(b).e - L3Ctx(b).s >= 4
+           IN \A i \in 1..Len(log) : log[i].bad = 1 \/ (LogFieldsOK(b, obs, log[i]) /\ Present(log[i], hasIp, hasPorts)))
 
 (***************************************************************************)
 (* Judge: every clause violated by observation obs of frame b              *)
@@ -546,7 +556,7 @@ JudgeCore(b, obs) ==
                             [] o.kind = "echo4"  -> IF Ip4Proto(r) = PROTO_ICMP THEN EchoReplyOK(b, r) ELSE { << "C03", "same-transport" >> }
                             [] o.kind = "echo6"  -> IF Ip6Nh(r) = PROTO_ICMP6 THEN EchoReplyOK(b, r) ELSE { << "C03", "same-transport" >> }
                             [] o.kind = "na"     -> IF Ip6Nh(r) = PROTO_ICMP6 THEN NaOK(b, r) ELSE { << "C03", "same-transport" >> }
-                            [] o.kind \in { "synack", "finack", "data", "other" } ->
+                            [] o.kind \in { "synack", "finack", "data", "other", "refused" } ->
                                  IF ~ReplyShape(b, r, 20) \/ (IF EthType(r) = ETH_IP4 THEN Ip4Proto(r) ELSE Ip6Nh(r)) # PROTO_TCP
                                  THEN { << "C03", "same-transport" >> }
                                  ELSE LET rs == L4Start(r)
@@ -560,6 +570,8 @@ JudgeCore(b, obs) ==
                                                   \cup AppJudge("tcp", StreamBefore(t.flow), DoneBefore(t.flow),
                                                                 TcpPayload(b), AppCtxTcp(b),
                                                                 Bytes(r, TcpDataStartR(r), Len(r)), obs.aux)
+                                            [] o.kind = "refused" -> MirrorTcp(b, r)
+                                                  \cup V("C06", "answered:TcpSynRefused", ~isSynAck)
                                             [] OTHER -> MirrorTcp(b, r)
                                                   \cup V("C06", "synack-only-under-syn-policy", ~isSynAck))
                             [] o.kind = "udp" ->
@@ -587,11 +599,22 @@ JudgeCore(b, obs) ==
 (* The statements speak of requests; a responder that ignores what no conforming sender emits *)
 (* (a wrong header or transport checksum, a fragment, a wrong version nibble) still satisfies   *)
 (* them.  Such frames are never *required* to be answered; what is sent for them is judged.    *)
+(* transport headers no conforming sender emits: a TCP data offset below 5 or beyond the segment, *)
+(* a UDP length that disagrees with the IP payload, an echo without identifier and sequence number *)
+L4HeaderSound(b, x) ==
+    IF x.e <= x.s THEN TRUE
+    ELSE CASE x.proto = PROTO_TCP -> x.e - x.s < 20 \/ (TcpDoff(b, x.s) >= 5 /\ x.s + TcpDoff(b, x.s) * 4 <= x.e)
+           [] x.proto = PROTO_UDP -> x.e - x.s < 8 \/ UdpLen(b, x.s) = x.e - x.s
+           [] x.proto \in { PROTO_ICMP, PROTO_ICMP6 } -> x.e - x.s >= 8 \/ x.e - x.s < 4
+           [] OTHER -> TRUE
+
 RequestSound(b) ==
     IF Len(b) < 14 THEN TRUE
     ELSE IF EthType(b) = ETH_IP4 /\ Ip4OK(b) THEN
          LET x == L3Ctx(b) IN
          /\ Ip4Ver(b) = 4 /\ Ip4Ihl(b) >= 5 /\ 14 + Ip4Ihl(b) * 4 <= Len(b)
+         /\ Ip4TotLen(b) >= Ip4Ihl(b) * 4 /\ 14 + Ip4TotLen(b) <= Len(b)
+         /\ L4HeaderSound(b, x)
          /\ (Ip4FlagsFrag(b) % 16384) = 0
          /\ CsumOK(b, 14, 14 + Ip4Ihl(b) * 4, 0)
          /\ (x.e <= x.s
@@ -602,7 +625,8 @@ RequestSound(b) ==
                   [] OTHER -> TRUE)
     ELSE IF EthType(b) = ETH_IP6 /\ Ip6OK(b) THEN
          LET x == L3Ctx(b) IN
-         /\ Ip6Ver(b) = 6
+         /\ Ip6Ver(b) = 6 /\ 54 + Ip6PLen(b) <= Len(b)
+         /\ L4HeaderSound(b, x)
          /\ (x.e <= x.s
              \/ CASE x.proto = PROTO_ICMP6 -> x.e - x.s < 4 \/ CsumOK(b, x.s, x.e, Pseudo6(x.src, x.dst, PROTO_ICMP6, x.e - x.s))
                   [] x.proto = PROTO_TCP   -> x.e - x.s < 20 \/ CsumOK(b, x.s, x.e, Pseudo6(x.src, x.dst, PROTO_TCP, x.e - x.s))
@@ -614,7 +638,15 @@ UnansweredAll == UnansweredTags \cup { "unanswered:" \o n : n \in { "ArpReply", 
                                                                   "TcpFinAck", "TcpDataFirstValid", "TcpDataKnownFlow" } }
 
 JudgeSound(b, obs) ==
-    LET j == JudgeCore(b, obs) IN
+    LET j0 == JudgeCore(b, obs)
+        (* a UDP length field that disagrees with the IP payload: which bytes are "the payload" is *)
+        (* ambiguous, so a must-not-answer class of that payload is not held against the responder *)
+        udpOdd == ExpectL2(b).kind = "udp" /\ LET u == UdpCtx(b) IN UdpLen(b, u.s) # u.e - u.s
+        j == IF udpOdd
+             THEN LET c == Classify("udp", << >>, UdpPayload(b), AppCtxUdp(b)) IN
+                  { v \in j0 : v # << c.prop, "answered:" \o c.why >> /\ v # << "C12", "reply-typed-message-answered" >> }
+             ELSE j0
+    IN
     IF \E v \in j : v[2] \in UnansweredAll
     THEN (IF RequestSound(b) THEN j ELSE { v \in j : v[2] \notin UnansweredAll })
     ELSE j
@@ -711,7 +743,7 @@ StreamCap == 4096
 
 AfterTcb(b, obs) ==
     LET o == ExpectL2(b) IN
-    IF o.kind # "data" \/ obs.kind # "reply" THEN tcb
+    IF o.kind # "data" \/ obs.kind # "reply" \/ ~ReplyShape(b, obs.rep, 20) THEN tcb
     ELSE LET t   == TcpCtx(b)
              pay == TcpPayload(b)
              old == StreamBefore(t.flow)
@@ -760,7 +792,7 @@ AfterColl(b, obs) ==
 
 AfterCkx(b, obs) ==
     LET o == ExpectL2(b) IN
-    IF o.name = "TcpDataUnboundCookie" /\ obs.kind = "silence"
+    IF o.name = "TcpDataUnboundCookie" /\ obs.kind = "silence" /\ RequestSound(b)
        /\ ~HasFlag(TcpCtx(b).flags, F_RST) /\ ~HasFlag(TcpCtx(b).flags, F_SYN)     \* silence on such a segment says nothing about the cookie
     THEN LET t == TcpCtx(b) IN ckx \cup { << t.flow, Sub1_32(t.ack) >> }
     ELSE ckx
